@@ -624,8 +624,42 @@ package engine
 //@   property C03
 //@   requires p != nil && len(p.delayed) > 0
 //@   modifies heap
+//@   ghost-set polled 0
+//@   assume-call ensures result != nil
+//@   ensures[non-nil] result != nil
 //@   assume-call preserves p.delayed, p.repeat, elems(p.delayed)
 //@   at-call dynamic requires[leftmost] fn == p.delayed[0] && a0 == ctx
 //@   ensures[consume] !old(p.repeat) ==> len(p.delayed) == old(len(p.delayed)) - 1 && backing(p.delayed) == old(backing(p.delayed)) && offset(p.delayed) == old(offset(p.delayed)) + 1
 //@   ensures[order] !old(p.repeat) ==> forall j int :: 0 <= j && j < len(p.delayed) ==> p.delayed[j] == old(p.delayed[j + 1])
 //@   ensures[repeat] old(p.repeat) ==> len(p.delayed) == old(len(p.delayed)) && backing(p.delayed) == old(backing(p.delayed)) && offset(p.delayed) == old(offset(p.delayed)) && p.delayed[0] == old(p.delayed[0])
+
+//@ ghost polled bool
+
+//@ extern context.Context.Done
+//@   pure
+//@ extern context.Context.Err
+//@   pure
+
+//@ ---------------------------------------------------------------- the trampoline (C03 cut step, C04 error step, C13 polling)
+
+//@ func (*Promise).Force
+//@   property C03 C04 C13
+//@   requires p != nil
+//@   modifies heap
+//@   nosafety
+//@   bind popped = (*promiseStack).pop#1
+//@   bind found = (*promiseStack).popUntil#1
+//@   bind rerr = (*promiseStack).recover#1
+//@   bind next = (*Promise).child#1
+//@   at-call append requires[push-order] called(next) ==> len(a1) == 2 && a1[0] == popped && a1[1] == next
+//@   loop 1 assume forall q *Promise :: q != nil ==> q.cutParent != q
+//@   loop 1 assume forall j int :: 0 <= j && j < len(stack) ==> stack[j] != nil
+//@   at-call (*Promise).child requires[poll-precedes-step] ghost(polled)
+//@   at-call (*Promise).child requires[steps-the-popped-promise] a0 == popped && a1 == ctx
+//@   at-call (*Promise).child requires[cut-done] popped.cutParent == nil
+//@   at-call (*Promise).child requires[refindable] called(found) && found ==>
+//@       len(stack) >= 1 && stack[len(stack) - 1] == argof(found, 1) && len(argof(found, 1).delayed) == 0
+//@   at-call (*promiseStack).popUntil requires[cuts-to-parent] a1 == popped.cutParent && a1 != nil
+//@   at-call (*promiseStack).recover requires[exact-error] a1 == popped.err && len(popped.delayed) == 0
+//@   ensures[true-has-no-error] ok ==> err == nil
+//@   ensures[error-origin] err != nil && called(rerr) ==> err == rerr
